@@ -3,6 +3,8 @@ package main
 import (
 	"fmt"
 	"go/types"
+	"os"
+	"regexp"
 	"strings"
 
 	"golang.org/x/tools/go/ssa"
@@ -227,6 +229,9 @@ type State struct {
 	now    Term
 	dunk   bool // defers unknown after a merge
 	since  *Term
+	// loopFrame: this havoc is the cut at a loop header of a function with a modifies
+	// clause: what the function may not write at all is unchanged by the loop as well
+	loopFrame bool
 }
 
 func (vc *VC) entryState() *State {
@@ -243,6 +248,63 @@ func (vc *VC) docsWF(key string, comp Term) {
 	}
 	vc.uses["wf"] = true
 	vc.assumeOwned(comp, T(sBool, "(forall ((r!q Int)) (! (wfVal (VDoc (select %s r!q))) :pattern ((select %s r!q))))", comp.S, comp.S))
+}
+
+// entryHeapClosed: the heap at function entry is closed under reachability: a
+// pointer stored in an object (or map) that existed at entry points to an object
+// that existed at entry (nothing allocated later can be referenced from it yet).
+func (vc *VC) entryHeapClosed(key string, comp Term) {
+	vc.heapClosed(key, comp, Term{"now!0", sInt})
+}
+
+// closedEverywhere: development switch for the extension of the closure axioms to
+// havocked components and slice-valued fields (being evaluated; off = entry heap only).
+var closedEverywhere = os.Getenv("LUNGOVC_CLOSED") != ""
+
+// heapClosed: the same closure for a component as it is after a call or at a loop
+// cut, relative to the allocation clock of that state (which is past every
+// allocation made so far): what an existing object refers to exists.
+func (vc *VC) heapClosed(key string, comp Term, now Term) {
+	if !closedEverywhere && (now.S != "now!0" || comp.Sort == "(Array Int Sl)" || strings.HasPrefix(key, "E:")) {
+		return
+	}
+	switch {
+	case (strings.HasPrefix(key, "F:") || strings.HasPrefix(key, "D:")) && comp.Sort == "(Array Int Ref)":
+		vc.assumeOwned(comp, T(sBool, "(forall ((r!q Int)) (! (=> (< (alloc r!q) %[2]s) (< (alloc (select %[1]s r!q)) %[2]s)) :pattern ((select %[1]s r!q))))", comp.S, now.S))
+	case (strings.HasPrefix(key, "F:") || strings.HasPrefix(key, "D:")) && comp.Sort == "(Array Int Sl)":
+		vc.assumeOwned(comp, T(sBool, "(forall ((r!q Int)) (! (=> (< (alloc r!q) %[2]s) (< (alloc (Sl.base (select %[1]s r!q))) %[2]s)) :pattern ((select %[1]s r!q))))", comp.S, now.S))
+	case strings.HasPrefix(key, "E:") && comp.Sort == "(Array Int (Array Int Ref))":
+		vc.assumeOwned(comp, T(sBool, "(forall ((b!q Int) (i!q Int)) (! (=> (< (alloc b!q) %[2]s) (< (alloc (select (select %[1]s b!q) i!q)) %[2]s)) :pattern ((select (select %[1]s b!q) i!q))))", comp.S, now.S))
+	case strings.HasPrefix(key, "MV:") && strings.HasSuffix(comp.Sort, " Ref))"):
+		if ks, _, ok := arraySorts(strings.TrimSuffix(strings.TrimPrefix(comp.Sort, "(Array Int "), ")")); ok {
+			vc.assumeOwned(comp, T(sBool, "(forall ((m!q Int) (k!q %[3]s)) (! (=> (< (alloc m!q) %[2]s) (< (alloc (select (select %[1]s m!q) k!q)) %[2]s)) :pattern ((select (select %[1]s m!q) k!q))))", comp.S, now.S, ks))
+		}
+	}
+}
+
+// loopFrameAxiom: in a function with a modifies clause every write is proved
+// (frame obligations) to hit an object allocated during the call or a declared
+// target. So at a loop cut the objects that existed at function entry and are
+// not declared targets of this component keep their content.
+func (vc *VC) loopFrameAxiom(key string, now, before Term) {
+	if !strings.HasPrefix(key, "F:") && !strings.HasPrefix(key, "D:") && !strings.HasPrefix(key, "E:") && !strings.HasPrefix(key, "M") {
+		return
+	}
+	excl := []string{"(< (alloc r!q) now!0)"}
+	for _, m := range vc.frameTargets {
+		switch {
+		case m.all:
+			return
+		case m.since != nil:
+			excl = append(excl, fmt.Sprintf("(< (alloc r!q) %s)", m.since.S))
+		case m.key == key && m.whole:
+			return
+		case m.key == key:
+			excl = append(excl, fmt.Sprintf("(not (= r!q %s))", m.ref.S))
+		}
+	}
+	vc.assumeOwned(now, T(sBool, "(forall ((r!q Int)) (! (=> (and %s) (= (select %s r!q) (select %s r!q))) :pattern ((select %s r!q))))",
+		strings.Join(excl, " "), now.S, before.S, now.S))
 }
 
 func (s *State) derive() *State {
@@ -310,6 +372,7 @@ func (s *State) get(key string) Term {
 	case stEntry:
 		res = s.vc.declare(smtName(key)+"!0", s.vc.compSort(key))
 		s.vc.docsWF(key, res)
+		s.vc.entryHeapClosed(key, res)
 	case stSeq:
 		res = s.parent.get(key)
 	case stHavoc:
@@ -325,6 +388,10 @@ func (s *State) get(key string) Term {
 		if hit {
 			res = s.vc.declare(smtName(key)+"!"+s.id, s.vc.compSort(key))
 			s.vc.docsWF(key, res)
+			s.vc.heapClosed(key, res, s.now)
+			if s.loopFrame {
+				s.vc.loopFrameAxiom(key, res, s.parent.get(key))
+			}
 			if s.since != nil {
 				// frame: objects allocated before the threshold are unchanged
 				old := s.parent.get(key)
@@ -481,4 +548,22 @@ type Closure struct {
 	Fn       *ssa.Function
 	Bindings []Value
 	Term     Term
+}
+
+var structSortRE = regexp.MustCompile(`S_([A-Za-z0-9]+)_([A-Za-z0-9]+)`)
+
+// ensureSortsIn declares the struct sorts S_<pkg>_<Type> that a sort text written in a
+// contract file (a ghost variable's sort) mentions, so that a function that never
+// handles a value of that type itself can still refer to the ghost state.
+func (vc *VC) ensureSortsIn(srt string) {
+	for _, m := range structSortRE.FindAllStringSubmatch(srt, -1) {
+		for _, p := range vc.w.prog.AllPackages() {
+			if p.Pkg.Name() != m[1] {
+				continue
+			}
+			if tn, ok := p.Pkg.Scope().Lookup(m[2]).(*types.TypeName); ok {
+				vc.sorts.sortOf(tn.Type())
+			}
+		}
+	}
 }
